@@ -146,8 +146,8 @@ def generate(ctx):
 	for ln in range(0, L + 1):
 		for t in itertools.product(alpha, repeat=ln):
 			s = bytes(t)
-			for k in (1, 2, 3):
-				for p in (prefixes if ln <= 5 else prefixes[:4]):
+			for k in ((1, 2, 3) if (ln <= 5 or not ctx.quick) else (1, 2)):
+				for p in (prefixes if ln <= 5 else (prefixes[:4] if not ctx.quick else ['A', 'AT'])):
 					if ln < len(p):
 						if ln > 2:
 							continue
@@ -158,7 +158,8 @@ def generate(ctx):
 				yield 'find', dict(k=2, prefix='A', seq=s.hex())
 	ctx.count('stream:exhaustive-ACGTN', n)
 	ctx.exhaustive = True
-	ctx.extra['exhaustive_scope'] = f'all sequences over ACGTN up to length {L} x k in 1..3 x prefixes {prefixes}; all sequences of length<=3 over 7 byte classes'
+	ctx.extra['exhaustive_scope'] = (f'all sequences over ACGTN up to length 5 x k in 1..3 x prefixes {prefixes}; length 6'
+	                                 f'{" x k in 1..2 x prefixes A, AT" if ctx.quick else ".." + str(L) + " x k in 1..3 x 4 prefixes"}; all sequences of length<=3 over 8 byte classes')
 	# byte classes: upper, lower, N, NUL, 0xFF, '@', '['
 	classes = [ord('A'), ord('c'), ord('N'), 0, 0xFF, ord('@'), ord('['), ord('t')]
 	for ln in range(0, 4):
